@@ -163,6 +163,14 @@ protected:
     chunk.c_valid = 0;
     chunk.b_remain = maxcomplength;
     chunk.b_ptr = ptr + blStrings->getField(bucket);
+    {
+      // Never read beyond the sequence (the positional index closes one byte
+      // after its end): the last header is followed by padding
+      size_t end = blStrings->getField(blStrings->getNumberOfElements() - 1) - 1;
+      size_t left = end - blStrings->getField(bucket);
+      if (left < chunk.b_remain)
+        chunk.b_remain = left;
+    }
     bucket++;
     offset = 0;
 
